@@ -73,7 +73,10 @@ def run(check, repo="/repo", timeout=600, deep=False):
         extra["VERIF_SLICEC_BIN"] = sb
     scratch = os.path.join(VERIF, "build", "scratch")
     os.makedirs(scratch, exist_ok=True)
-    p = subprocess.run(["timeout", str(timeout), exe, check], capture_output=True, text=True,
+    def _limit():   # a changed tree that allocates without bound must end this run (-> undecided), not the machine
+        import resource
+        resource.setrlimit(resource.RLIMIT_AS, (24 << 30, 24 << 30))
+    p = subprocess.run(["timeout", str(timeout), exe, check], capture_output=True, text=True, preexec_fn=_limit,
                        env=dict(os.environ, VERIF_SCRATCH=scratch, **extra, **({"VERIF_BOUNDED_DEEP": "1"} if deep else {})))
     cex, summary = [], None
     for ln in p.stdout.split("\n"):
